@@ -18,7 +18,7 @@ def corpus(ctx):
     for k in range(n):
         progs["gen_%d_%d" % (ctx.seed, k)] = Gen(ctx.seed * 7000003 + k).program()
     for k in range(n // 3):
-        progs["genmap_%d_%d" % (ctx.seed, k)] = Gen(ctx.seed * 7000003 + 500000 + k, features={"maps": True}).program()
+        progs["genmap_%d_%d" % (ctx.seed, k)] = Gen(ctx.seed * 7000003 + 500000 + k, features={"maps": True, "fnvals": k % 2 == 1}).program()
     return progs
 
 
